@@ -30,8 +30,13 @@ PRIMS = {
     "mpz_mul_2exp": ((0,), True), "mpz_fdiv_q_2exp": ((0,), False), "mpz_powm": ((0,), False), "mpz_powm_ui": ((0,), False),
     "mpz_mod_ui": ((0,), False), "mpz_roinit_n": ((0,), False), "mpz_gcdext": ((0, 1, 2), False), "mpz_tdiv_qr": ((0, 1), False), "mpz_fdiv_qr": ((0, 1), False),
 }
-PURE = {"mpz_jacobi", "mpz_legendre", "mpz_cmp", "mpz_cmp_ui", "mpz_sgn", "mpz_tstbit", "mpz_scan1", "mpz_sizeinbase", "mpz_fdiv_ui"}
+PRIMS.update({
+    "ibz_set": ((0,), False), "ibz_copy": ((0,), False), "ibz_add": ((0,), False), "ibz_sub": ((0,), False),
+    "ibz_mul": ((0,), False), "ibz_div": ((0, 1), True),
+})
+PURE = {"ibz_cmp", "ibz_is_one", "ibz_is_zero", "mpz_jacobi", "mpz_legendre", "mpz_cmp", "mpz_cmp_ui", "mpz_sgn", "mpz_tstbit", "mpz_scan1", "mpz_sizeinbase", "mpz_fdiv_ui"}
 IGNORED = {"mpz_init", "mpz_clear", "ibz_init", "ibz_finalize"}
+RES_PRIMS = {"ibz_sqrt": 1}            # primitives returning int and writing their first argument (modelled: Res)
 MPZ_TYPES = {"mpz_t", "ibz_t"}
 INT_TYPES = {"int", "size_t", "mp_limb_t", "unsigned", "long"}
 
@@ -44,8 +49,9 @@ FUNCS = [
     ("ibz_sqrt_mod_p", "src/intbig/ref/generic/intbig.c", dict(kind="res", outs=["sqrt"], fuels=["q.toNat", "p.toNat - 1"])),
     ("ibz_sqrt_mod_2p", "src/intbig/ref/generic/intbig.c", dict(kind="res", outs=["sqrt"], fuels=[])),
     ("ibz_rand_interval", "src/intbig/ref/generic/intbig.c", dict(kind="res", outs=["rand", "stream"], fuels=["stream.length + 1"], stream=True)),
+    ("ibz_cornacchia_prime", "src/quaternion/ref/generic/integers.c", dict(kind="res", outs=["x", "y"], fuels=["p.natAbs + 2"], retvar="res")),
 ]
-RES_FUNCS = {"ibz_sqrt_mod_p": 1}      # translated callees returning int + writing their first argument
+RES_FUNCS = {"ibz_sqrt_mod_p": 1, "ibz_sqrt": 1}      # translated callees returning int + writing their first argument
 
 
 # ------------------------------------------------------------------------------------------- source preparation
@@ -292,6 +298,9 @@ class P:
             rhs = self.expr(); self.expect(";")
             if e[0] != "id":
                 raise IntbigError("assignment target not a variable")
+            if rhs[0] == "bin" and rhs[1] == "&&" and rhs[2] == e:
+                # short-circuit conjunction: the right operand (possibly a call with a destination) runs only if v != 0
+                return [("if", e, [("assignbool", e[1], rhs[3])], [])]
             return [("assign", e[1], rhs)]
         if self.accept("&="):
             rhs = self.expr(); self.expect(";")
@@ -321,6 +330,8 @@ class Emit:
         self.fuels = list(cfg["fuels"])
         self.final_label = None
         self.loop_tuple = []
+        self.ub = ["Res.ub"]
+        self.fuelmap = {}
 
     # expressions
     def ex(self, e, prop=False):
@@ -392,6 +403,10 @@ class Emit:
                     add(self.reg(s[2][2][0])); add("stream")
             elif s[0] == "andassign":
                 add(s[1])
+            elif s[0] == "assignbool":
+                add(s[1])
+                if s[2][0] == "call" and s[2][1] in RES_FUNCS:
+                    add(self.reg(s[2][2][0]))
             elif s[0] == "decl" and s[3] is not None:
                 add(s[2])
             elif s[0] == "if":
@@ -417,6 +432,8 @@ class Emit:
                 return True
             if s[0] == "call" and any(a[0] == "bin" and a[1] in ("<<", ">>") for a in s[2]):
                 return True
+            if s[0] == "assignbool" and s[2][0] == "call" and s[2][1] in RES_FUNCS:
+                return True
             if s[0] == "assign" and (s[2][0] == "bin" and s[2][1] in ("<<", ">>") or s[2][0] == "call" and s[2][1] in set(RES_FUNCS) | {"randombytes"}):
                 return True
             if s[0] == "if" and (self.transfers(s[2]) or self.transfers(s[3])):
@@ -424,6 +441,20 @@ class Emit:
             if s[0] in ("while", "doloop") and self.transfers(s[-1]):
                 return True
         return False
+
+    def assign_fuels(self, stmts):
+        """fuel annotations are matched to the loops in source order (a loop may be emitted several times)"""
+        for s in stmts:
+            if s[0] in ("while", "doloop"):
+                if not self.fuels:
+                    self.err("no fuel annotation for a loop")
+                self.fuelmap[id(s)] = self.fuels.pop(0)
+            for x in s[1:]:
+                if isinstance(x, list) and x and isinstance(x[0], tuple) and isinstance(x[0][0], str):
+                    self.assign_fuels(x)
+
+    def fuel_of(self, s):
+        return self.fuelmap[id(s)]
 
     def literal_count(self, s):
         return s[1] == "mpz_mul_2exp" and s[2][2][0] == "num"
@@ -515,7 +546,7 @@ class Emit:
                 call = "mpz_mul_2exp_lit %s" % " ".join(self.atom(a) for a in srcs)
                 partial = False
             if partial:
-                return ("%smatch %s with\n%s| none => Res.ub\n%s| some %s =>\n" % (ind, call, ind, ind, self.tup(ds))) + self.comp(rest, ind + "  ", k)
+                return ("%smatch %s with\n%s| none => %s\n%s| some %s =>\n" % (ind, call, ind, self.ub[-1], ind, self.tup(ds))) + self.comp(rest, ind + "  ", k)
             return "%slet %s := %s\n" % (ind, self.tup(ds), call) + self.comp(rest, ind, k)
         if kind == "if":
             pre, c = self.hoist(s[1], ind)
@@ -532,13 +563,18 @@ class Emit:
             el = self.comp(s[3] + rest, ind + "  ", k)
             return head + "%sif %s then\n%s%selse\n%s" % (ind, self.cond(c), th, ind, el)
         if kind == "while":
-            if self.transfers(s[2]) or self.hoisted(s[1]):
+            partial_body = any(st[0] == "call" and st[1] in PRIMS and PRIMS[st[1]][1] for st in s[2])
+            if self.hoisted(s[1]) or any(st[0] != "call" or (st[1] not in PRIMS) for st in s[2]) and self.transfers(s[2]):
                 self.err("while loop with a jump or a store in its condition")
-            if not self.fuels:
-                self.err("no fuel annotation for a while loop")
-            fuel = self.fuels.pop(0)
+            fuel = self.fuel_of(s)
             vs = self.modified(s[2])
             t = self.tup(vs)
+            if partial_body:
+                self.ub.append("none")
+                body = self.comp(s[2], ind + "      ", lambda i2: "%ssome %s\n" % (i2, t))
+                self.ub.pop()
+                return ("%smatch whileFuelO (fun %s => decide %s)\n%s    (fun %s =>\n%s%s    ) (%s) %s with\n%s| none => %s\n%s| some %s =>\n" % (
+                    ind, t, self.cond(s[1]), ind, t, body, ind, fuel, t, ind, self.ub[-1], ind, t)) + self.comp(rest, ind + "  ", k)
             body = self.comp(s[2], ind + "      ", lambda i2: "%s%s\n" % (i2, t))
             return ("%smatch whileFuel (fun %s => decide %s)\n%s    (fun %s =>\n%s%s    ) (%s) %s with\n%s| none => Res.ub\n%s| some %s =>\n" % (
                 ind, t, self.cond(s[1]), ind, t, body, ind, fuel, t, ind, ind, t)) + self.comp(rest, ind + "  ", k)
@@ -554,12 +590,15 @@ class Emit:
             t = self.tup(vs)
             body = self.comp(s[3], ind + "      ", lambda i2: "%s%s\n" % (i2, t))
             return ("%slet %s := forN\n%s    (fun %s =>\n%s%s    ) (%s).toNat %s\n" % (ind, t, ind, t, body, ind, self.ex(s[2]), t)) + self.comp(rest, ind, k)
+        if kind == "assignbool":
+            rhs = s[2]
+            if rhs[0] == "call" and rhs[1] in RES_FUNCS:
+                return self.res_call(s[1], rhs, rest, ind, k)
+            return "%slet %s : Int := if %s then 1 else 0\n" % (ind, ln(s[1]), self.cond(rhs)) + self.comp(rest, ind, k)
         if kind == "andassign":
             return "%slet %s := maskTopLimb %s %s %s\n" % (ind, ln(s[1]), ln(s[1]), self.atom(s[2]), self.atom(s[3])) + self.comp(rest, ind, k)
         if kind == "doloop":
-            if not self.fuels:
-                self.err("no fuel annotation for a do-while loop")
-            fuel = self.fuels.pop(0)
+            fuel = self.fuel_of(s)
             vs = self.modified(s[1])
             t = self.tup(vs)
             self.loop_tuple.append(t)
@@ -602,9 +641,10 @@ class Emit:
     def ret_text(self, e, ind):
         kind = self.cfg["kind"]
         if kind == "res":
-            if e != ("id", "ret"):
-                self.err("int-returning routine must end with `return ret;`")
-            return "%sfinish ret %s\n" % (ind, self.tup(self.cfg["outs"]))
+            rv = self.cfg.get("retvar", "ret")
+            if e != ("id", rv):
+                self.err("int-returning routine must end with `return %s;`" % rv)
+            return "%sfinish %s %s\n" % (ind, ln(rv), self.tup(self.cfg["outs"]))
         if kind == "ret":
             return "%s%s\n" % (ind, self.ex(e))
         if kind == "out":
@@ -614,7 +654,7 @@ class Emit:
         self.err("unknown result kind")
 
     def epilogue(self, ind):
-        return self.ret_text(("id", "ret"), ind)
+        return self.ret_text(("id", self.cfg.get("retvar", "ret")), ind)
 
 
 def translate(repo, fname, path, cfg):
@@ -633,6 +673,7 @@ def translate(repo, fname, path, cfg):
     # void routines: implicit return at the end
     if cfg["kind"] == "out" and (not stmts or stmts[-1][0] != "return"):
         stmts = stmts + [("return", None)]
+    em.assign_fuels(stmts)
     text = em.comp(stmts, "  ", lambda ind: em.err("control reaches the end of the function without return"))
     if em.fuels:
         raise IntbigError("%s: unused fuel annotations (a loop disappeared)" % fname)
